@@ -617,7 +617,6 @@ def finish(run):
 
 
 def run(case):
-    t0 = time.process_time()
     _shared_compile_cache()
     try:
         out = _run(case)
@@ -625,10 +624,6 @@ def run(case):
         s = case["grid"]
         out = bad("%s [%s level %s]: %s" % (fam(s), case["label"], case["level"], f.what),
                   finding_key="%s|%s|%s" % (fam(s), f.clause, f.symptom), detail=f.detail)
-    st = out.get("stats")
-    if not isinstance(st, dict):
-        st = out["stats"] = {}
-    st["cpu_s"] = round(time.process_time() - t0, 3)
     return out
 
 
